@@ -31,8 +31,8 @@ func init() {
 		Rule: "8 signature-method URIs (4 RSA, 4 ECDSA) plus unknown/empty-forced URIs x SP keys {RSA 1024/2048/3072/4096, ECDSA P-256/384/521} x message kinds {AuthnRequest redirect (detached query signature), AuthnRequest POST, LogoutRequest redirect/POST, LogoutResponse redirect/POST, ArtifactResolve captured at a scripted resolver} x relay states (URL metacharacters, long, non-ASCII) x IdP endpoints with/without query. " +
 			"Oracle: the verification certificate is taken from xml(sp.Metadata()) re-parsed (use=signing descriptor and AuthnRequestsSigned must be present); matching key/method => the detached signature verifies with crypto/rsa or crypto/ecdsa over exactly the emitted octets SAMLRequest=..[&RelayState=..]&SigAlg=.. and SigAlg is the configured URI, enveloped signatures verify (fresh goxmldsig context + direct verification of SignedInfo) with the configured method; mismatching or unknown method => every Make* returns an error and no output. Non-trivial = signed message emitted and verified, or refusal observed; distinct by full configuration vector.",
 		Assumptions: []string{"ECDSA signature values are ASN.1 DER as Go's crypto and goxmldsig produce and accept", "with a pre-existing endpoint query the signed octets may start at the endpoint's parameters or at SAMLRequest= (grey zone: either accepted, recorded)"},
-		FloorQuick:  1000,
-		FloorThor:   20000,
+		FloorQuick:  300,
+		FloorThor:   1200,
 		Run:         runC13,
 		LevelText:   "Every key-type x method x message-kind x binding combination is produced by the real SP and its signature verified by independent code under the certificate the SP itself publishes; mismatched pairs must be refused. Held-on-observed.",
 		LevelNote:   "Trusts crypto/rsa, crypto/ecdsa, goxmldsig's canonicaliser, x/net/html.",
